@@ -29,3 +29,20 @@ package types
 //@   flag noframe
 //@   ensures[C18.vos.accept] res_ParseJoinedStoreKey_1 == nil && len(res_ParseJoinedStoreKey_0) == 2 && has(operators, res_ParseJoinedStoreKey_0[0]) &&
 //@        state.OptInfo.OptedOutHeight >= state.OptInfo.OptedInHeight && res_IsHexAddress_0 ==> err == nil
+
+// C18 (the genesis a chain exports is accepted by validation): a stored USD-value record of an opted-in operator is
+// accepted whenever its fields are present and non-negative, its key names a known operator and a known AVS, and
+// total <= AVS total, self <= total, active <= total - in particular an operator that is INACTIVE at the last epoch end
+// (active 0 while self and total are positive) is accepted.
+//@ define vouvS(v) = v.OptedUSDValue.SelfUSDValue
+//@ define vouvT(v) = v.OptedUSDValue.TotalUSDValue
+//@ define vouvA(v) = v.OptedUSDValue.ActiveUSDValue
+//@ func (GenesisState).ValidateOperatorUSDValues$1
+//@   flag pure=ParseJoinedStoreKey,Wrapf,Wrap,Error,String
+//@   ensures[C18.vouv.accept] !isnil(vouvS(operatorUSDValue)) && !isnil(vouvT(operatorUSDValue)) && !isnil(vouvA(operatorUSDValue)) &&
+//@        val(vouvS(operatorUSDValue)) >= 0 && val(vouvT(operatorUSDValue)) >= 0 && val(vouvA(operatorUSDValue)) >= 0 &&
+//@        defined(res_ParseJoinedStoreKey_0) && res_ParseJoinedStoreKey_1 == nil && len(res_ParseJoinedStoreKey_0) >= 2 &&
+//@        has(operators, res_ParseJoinedStoreKey_0[1]) && has(avsUSDValues, res_ParseJoinedStoreKey_0[0]) &&
+//@        !isnil(avsUSDValues[res_ParseJoinedStoreKey_0[0]].Amount) &&
+//@        val(vouvT(operatorUSDValue)) <= val(avsUSDValues[res_ParseJoinedStoreKey_0[0]].Amount) &&
+//@        val(vouvS(operatorUSDValue)) <= val(vouvT(operatorUSDValue)) && val(vouvA(operatorUSDValue)) <= val(vouvT(operatorUSDValue)) ==> err == nil
